@@ -469,6 +469,77 @@ func (m *MemSSA) solve() {
 			m.out[b] = cur
 		}
 	}
+	m.dropTrivialPhis()
+}
+
+// dropTrivialPhis replaces every memory phi all of whose incoming versions are
+// one and the same version (or the phi itself) by that version: such phis are
+// left behind by the iteration order and would make one cell look like two.
+func (m *MemSSA) dropTrivialPhis() {
+	repl := map[*MemVer]*MemVer{}
+	resolve := func(v *MemVer) *MemVer {
+		for v != nil {
+			w, ok := repl[v]
+			if !ok {
+				return v
+			}
+			v = w
+		}
+		return v
+	}
+	for changed := true; changed; {
+		changed = false
+		for _, ph := range m.phis {
+			if _, done := repl[ph]; done {
+				continue
+			}
+			var only *MemVer
+			trivial := true
+			for _, p := range ph.Block.Preds {
+				o := m.out[p]
+				if o == nil {
+					continue
+				}
+				in := resolve(o[ph.Key])
+				if in == nil || in == ph {
+					continue
+				}
+				if only == nil {
+					only = in
+				} else if only != in {
+					trivial = false
+				}
+			}
+			if trivial && only != nil {
+				repl[ph] = only
+				changed = true
+			}
+		}
+	}
+	if len(repl) == 0 {
+		return
+	}
+	fix := func(mp map[string]*MemVer) {
+		for k, v := range mp {
+			if w := resolve(v); w != v {
+				mp[k] = w
+			}
+		}
+	}
+	for _, mp := range m.in {
+		fix(mp)
+	}
+	for _, mp := range m.out {
+		fix(mp)
+	}
+	for _, mp := range m.atInstr {
+		fix(mp)
+	}
+	for k, ph := range m.phis {
+		if _, gone := repl[ph]; gone {
+			delete(m.phis, k)
+		}
+	}
 }
 
 // versionAt returns the version of key that reaches instruction in (nil if untracked).
